@@ -195,6 +195,15 @@ def judgeLine (a : Acc) (l : String) : Except Verdict Acc := do
                match mf with | .clean => "ok" | .err => "err" | .trap => "crash"]
     if ms != obs then throw (.mismatch s!"udfwrite: model {ms} observed {obs}")
     pure { (a.add (ks.map (fun k => if k.supported then "udfwrite.supported" else "udfwrite.skipped-field"))) with nt := true }
+  | ["http", method, _path, enc, _body] =>
+    match obs with
+    | ["X", how] => throw (.specfail (if how == "hang" then "terminates" else "process-survives") s!"http {method}: {how}")
+    | ["noresp"] => throw (.specfail "returns-task-or-error" s!"http {method}: the server dropped the connection without a response (handler panic)")
+    | ["badreq"] => pure (a.add ["http.client-refused"])
+    | [st] =>
+      let some n := st.toNat? | throw (.badop l)
+      pure (a.add [s!"http.{method}.{n / 100}xx", s!"http.enc.{enc}"])
+    | _ => throw (.badop l)
   | "livex" :: node :: fn :: _expr :: pts =>
     match obs with
     | ["X", how] => throw (.specfail (if how == "hang" then "terminates" else "process-survives") s!"livex {node} {fn}: {how}")
